@@ -551,8 +551,23 @@ class Exec:
         return self.check(s) == z3.unsat
 
     def oblige(self, st, kind, goal, line=None):
-        name = '%s/%s/L%s/#%d' % (self.label, kind, line, next(self.safety_names))
-        self.obls.append(Obligation(name, list(st.facts) + list(st.pc), goal, line))
+        num = next(self.safety_names)
+        # a conjunction is discharged conjunct by conjunct (smaller queries, finer reports); nested conjunctions are flattened
+        parts = []
+
+        def flat(g):
+            if z3.is_and(g) and kind.startswith('inv-'):
+                for c in g.children():
+                    flat(c)
+            else:
+                parts.append(g)
+        flat(goal)
+        hyps = list(st.facts) + list(st.pc)
+        if len(parts) <= 1:
+            self.obls.append(Obligation('%s/%s/L%s/#%d' % (self.label, kind, line, num), hyps, goal, line))
+            return
+        for i, g in enumerate(parts):
+            self.obls.append(Obligation('%s/%s/L%s/#%d.%d' % (self.label, kind, line, num, i), hyps, g, line))
 
     def fork(self, st, cond):
         """returns list of (state, truth)"""
@@ -1138,7 +1153,9 @@ class Exec:
             if m < 0:
                 raise ToolLimit('negative mask')
             if not self.entails(st, x >= 0):
-                raise ToolLimit('& on possibly negative')
+                # Python ints are two's complement with infinite sign extension: the bits of x below 2^k are those of x mod 2^k
+                # (Euclidean, non-negative), so x & m == (x mod 2^k) & m for any 2^k > m
+                x = x % (2 ** max(1, m.bit_length()))
             # contiguous low mask -> mod ; general: sum of bits
             if m & (m + 1) == 0:
                 return x % (m + 1)
